@@ -16,4 +16,6 @@ mech = p['anchors'].get('mechanism', [])
 if int(n) >= 4 and mech:
     m = mech[(int(n) - 4) % len(mech)]
     text += f"\n\nFor this variant, look first at this mechanism of the property (but any site that breaks the property is fine if this one offers nothing subtle): {m['name']} - {m['where']}. Avoid the most common seeded bugs (plain off-by-one on a length limit, dropping one header, comparing a prefix of a signature); prefer state carried across calls/frames, rarely taken branches, error paths, interactions of two features, boundary values of time/size, and behaviour that only shows under a particular configuration.\n"
+if int(n) >= 5:
+    text += "\nThe framework under evaluation decides the property by RUNNING the real code under generated workloads (random and hostile inputs, systematic per-member / per-operation sweeps, single-fault injection, differential comparison with reference implementations) and watching for violations. Aim for a change that such a framework is likely to MISS although it genuinely breaks the property: it should need a rare COMBINATION of conditions (two or three unusual values at once, a specific size or alignment, a specific order of two operations, a particular configuration together with a particular input, a value at the edge of a numeric range, the second occurrence of something) rather than one unusual value alone. It must still be a realistic programming slip, and your demonstration must still show a genuine violation of the property as stated.\n"
 print(text.format(pid=pid, n=n, wt=wt, out=out, title=p['title'], statement=p['statement'], quant=p['quantifier']['text'], why=p['why_tests_cant'], files=', '.join(p['anchors']['files'])))
